@@ -375,11 +375,17 @@ func (e *c10Env) compareScan(before map[string]c10Owned, op, scope string) {
 		if !present || b.owner == "opaque" {
 			continue
 		}
+		if k == barrier.ShamirKekPath && b.owner == "ns" {
+			continue // the root-path record a namespace rekey left behind (reported when it appeared)
+		}
 		e.r.Count("scan_records_compared", 1)
 		if a.owner != b.owner {
 			class := "C10-entry-unreadable-after-key-operation"
-			if k == barrier.ShamirKekPath && scope == "ns" && b.owner == "root" && strings.HasPrefix(op, "rekey") {
-				class = "C10-ns-rekey-overwrites-root-shamir-kek"
+			if k == barrier.ShamirKekPath && scope == "ns" && b.owner == "root" && a.owner == "ns" && strings.HasPrefix(op, "rekey") {
+				// narrow signature: keep exploring this history after recording it
+				e.r.Violate(c10ClassNSKek, e.caseID, fmt.Sprintf("[%s] %s on the namespace barrier: the root barrier's own record %q (its copy of the Shamir seal key, written at init, read by standbys and snapshot restore) was readable through the root barrier before the operation and now only opens with the namespace barrier's keys", e.caseID, op, k), e.witness())
+				e.r.Count("ns_rekey_overwrote_root_shamir_kek", 1)
+				continue
 			}
 			e.violClass(class, "%s on the %s barrier: physical record %q was readable through the %s barrier before the operation and is now %s (readable through: %s)", op, scope, k, b.owner, map[bool]string{true: "not readable through any barrier", false: "owned by another barrier"}[a.owner == "opaque"], a.owner)
 			return
@@ -859,9 +865,9 @@ func TestVerif_C10_CoreHistories(t *testing.T) {
 	shard, nshards := kit.Shard()
 	r := kit.NewResult(t, "c10-core-histories", seed, "seeded random histories on a full core (Shamir seal or stored-key test seal, transactional store or not, with or without a Shamir-sealed child namespace): writes through the root barrier, the namespace barrier and the API / encryption-key rotation / root-key rotation / complete rekeys to random (shares, threshold) through both rekey APIs, with and without verification / keyring reload / seal+unseal of the core or of the namespace (always preceded by fewer-than-threshold, random, mixed and stale share sets, which must leave it sealed) / restart on the same store; after every unseal and restart and at the end everything written is read back, fresh barrier writes must carry 1+rotations as term, a sealed core or namespace must refuse reads, and no key operation may make a record of another barrier unreadable. A history is non-trivial when a key operation was followed by a seal/unseal or restart after which earlier data was read back; distinct by operation-kind sequence")
 	defer r.Write(t)
-	n := kit.N(10, 72)
+	n := kit.N(80, 1600)
 	for h := 0; h < n; h++ {
-		if h%nshards != shard {
+		if (h/8)%nshards != shard {
 			continue
 		}
 		caseID := fmt.Sprintf("ch:%d", h)
@@ -882,22 +888,24 @@ func TestVerif_C10_CoreHistories(t *testing.T) {
 			r.Sample(map[string]any{"case": caseID, "seal": e.sealName(), "transactional": tx, "namespace": withNS, "steps": e.steps})
 		}
 		e.v.Close()
-		if r.NViolations() > 20 {
+		if c10Unexpected(r) > 20 {
 			break
 		}
 	}
 	div := int64(nshards)
-	r.Require("rotations", max(8/div, 1))
-	r.Require("root_rotations", max(6/div, 1))
-	r.Require("rekeys", max(8/div, 1))
-	r.Require("seals", max(6/div, 1))
-	r.Require("unseals_ok", max(8/div, 1))
-	r.Require("ns_unseals_ok", max(4/div, 1))
-	r.Require("wrong_share_sets_refused", max(20/div, 1))
-	r.Require("sealed_reads_refused", max(30/div, 1))
-	r.Require("entries_read_back", max(200/div, 1))
-	r.Require("fresh_write_term_checks_after_rotation", max(8/div, 1))
-	r.Require("scan_records_compared", max(500/div, 1))
+	r.Require("rotations", 40/div)
+	r.Require("root_rotations", 30/div)
+	r.Require("rekeys", 50/div)
+	r.Require("seals", 40/div)
+	r.Require("unseals_ok", 60/div)
+	r.Require("ns_unseals_ok", 30/div)
+	r.Require("restarts", 20/div)
+	r.Require("wrong_share_sets_refused", 200/div)
+	r.Require("wrong_share_kind:stale-shares-of-a-completed-rekey", 20/div)
+	r.Require("sealed_reads_refused", 300/div)
+	r.Require("entries_read_back", 2000/div)
+	r.Require("fresh_write_term_checks_after_rotation", 40/div)
+	r.Require("scan_records_compared", 5000/div)
 }
 
 func c10History(e *c10Env, nops int) {
@@ -1001,30 +1009,26 @@ func (c c10Case) name() string {
 
 func c10Cases() []c10Case {
 	var out []c10Case
-	if kit.Tier() == "quick" {
-		out = []c10Case{
-			{shamir: false, tx: true, scope: "root", op: "rotate", pre: 1},
-			{shamir: false, tx: true, scope: "root", op: "root-rotate", pre: 1},
-			{shamir: false, tx: false, scope: "root", op: "rekey-legacy", n: 1, t: 1, pre: 0},
-			{shamir: true, tx: false, scope: "root", op: "rotate", pre: 0},
-			{shamir: true, tx: true, scope: "root", op: "root-rotate", pre: 1},
-			{shamir: true, tx: true, scope: "root", op: "rekey-legacy", n: 5, t: 3, pre: 1},
-			{shamir: true, tx: false, scope: "root", op: "rekey-sm", n: 3, t: 2, pre: 0},
-			{shamir: true, tx: true, scope: "root", op: "rekey-sm", n: 1, t: 1, verify: true, pre: 0},
-			{shamir: false, tx: true, scope: "ns", op: "rotate", pre: 0},
-			{shamir: false, tx: false, scope: "ns", op: "root-rotate", pre: 1},
-			{shamir: true, tx: true, scope: "ns", op: "rekey-sm", n: 5, t: 3, pre: 0},
+	thorough := kit.Tier() == "thorough"
+	maxPre := 2
+	if thorough {
+		maxPre = 3
+	}
+	add := func(c c10Case) {
+		out = append(out, c)
+		if thorough {
+			c.tx = !c.tx
+			out = append(out, c)
 		}
-		return out
 	}
 	for _, sh := range []bool{false, true} {
 		for _, scope := range []string{"root", "ns"} {
-			for pre := 0; pre < 3; pre++ {
-				tx := (pre+len(out))%2 == 0
-				out = append(out, c10Case{shamir: sh, tx: tx, scope: scope, op: "rotate", pre: pre})
-				out = append(out, c10Case{shamir: sh, tx: !tx, scope: scope, op: "root-rotate", pre: pre})
+			shamirBarrier := sh || scope == "ns"
+			for pre := 0; pre < maxPre; pre++ {
+				add(c10Case{shamir: sh, tx: (pre+len(out))%2 == 0, scope: scope, op: "rotate", pre: pre})
+				add(c10Case{shamir: sh, tx: (pre+len(out))%2 == 1, scope: scope, op: "root-rotate", pre: pre})
 				for ci, cfg := range c10Configs {
-					if !sh && scope == "root" && ci > 0 {
+					if !shamirBarrier && ci > 0 {
 						continue // the stored-key seal has no barrier shares: one configuration
 					}
 					apis := []string{"sm"}
@@ -1032,17 +1036,31 @@ func c10Cases() []c10Case {
 						apis = append(apis, "legacy")
 					}
 					for ai, api := range apis {
-						if (ci+pre+ai)%3 != 0 && pre > 0 {
-							continue
+						for vi, verify := range []bool{false, true} {
+							if verify && !shamirBarrier {
+								continue
+							}
+							if !thorough && shamirBarrier && (ci+ai+vi+pre)%3 != 0 {
+								continue
+							}
+							add(c10Case{shamir: sh, tx: (ci+ai+vi)%2 == 0, scope: scope, op: "rekey-" + api, n: cfg[0], t: cfg[1], verify: verify, pre: pre})
 						}
-						verify := (ci+ai+pre)%4 == 1 && (sh || scope == "ns")
-						out = append(out, c10Case{shamir: sh, tx: (ci+ai)%2 == 0, scope: scope, op: "rekey-" + api, n: cfg[0], t: cfg[1], verify: verify, pre: pre})
 					}
 				}
 			}
 		}
 	}
 	return out
+}
+
+const (
+	c10ClassF6    = "C10-F6-crash-between-stored-keys-and-keyring-write"
+	c10ClassNSKek = "C10-ns-rekey-overwrites-root-shamir-kek"
+)
+
+// c10Unexpected counts violations outside the two narrow signatures that do not stop exploration.
+func c10Unexpected(r *kit.Result) int {
+	return r.NViolations() - int(r.Get("violations:"+c10ClassF6)) - int(r.Get("violations:"+c10ClassNSKek))
 }
 
 type c10JW struct {
@@ -1081,14 +1099,14 @@ func TestVerif_C10_CoreCrash(t *testing.T) {
 			continue
 		}
 		c10CrashCase(t, r, seed, ci, cs, pre)
-		if r.NViolations() > 60 {
+		if c10Unexpected(r) > 40 {
 			break
 		}
 	}
-	r.Require("prefixes_checked", int64(max(30/nshards, 1)))
-	r.Require("prefixes_unsealed_and_verified", int64(max(20/nshards, 1)))
-	r.Require("entries_read_back", int64(max(200/nshards, 1)))
-	r.Require("completed_operation_checks", int64(max(8/nshards, 1)))
+	r.Require("prefixes_checked", int64(300/nshards))
+	r.Require("prefixes_unsealed_and_verified", int64(200/nshards))
+	r.Require("entries_read_back", int64(2000/nshards))
+	r.Require("completed_operation_checks", int64(50/nshards))
 }
 
 func c10CrashCase(t *testing.T, r *kit.Result, seed int64, ci int, cs c10Case, pre string) {
@@ -1174,6 +1192,10 @@ func c10CrashCase(t *testing.T, r *kit.Result, seed int64, ci int, cs c10Case, p
 	rekeyLike := cs.op == "root-rotate" || strings.HasPrefix(cs.op, "rekey")
 	shamirBarrier := cs.scope == "ns" || cs.shamir
 	replaced := shamirBarrier && newShares != nil && !c10SameShares(oldShares, newShares)
+	var unsealableAt, onlyNewAt []int
+	defer func() {
+		t.Logf("c10 crash case %s: old %d-of-%d -> new %d-of-%d, %d writes, stored-keys write #%d: unsealable at prefixes %v, only the not-yet-returned shares open at %v", cs.name(), oldThr, len(oldShares), cs.t, len(newShares), len(j), stored, unsealableAt, onlyNewAt)
+	}()
 	for k := 0; k <= len(j); k++ {
 		caseID := fmt.Sprintf("%s:%d", pre, k)
 		if !kit.WantCase(caseID) {
@@ -1271,9 +1293,11 @@ func c10CrashCase(t *testing.T, r *kit.Result, seed int64, ci int, cs c10Case, p
 		if len(opened) == 0 {
 			class := "C10-crash-unsealable"
 			if rekeyLike && stored >= 0 && k > stored && k <= last {
-				class = "C10-F6-crash-between-stored-keys-and-keyring-write"
+				class = c10ClassF6
 				r.Count("f6_window_prefixes_unsealable", 1)
 			}
+			r.Count(fmt.Sprintf("unsealable_prefix:%s:%s:%s:k%d/%d", e.sealName(), cs.scope, cs.op, k, len(j)), 1)
+			unsealableAt = append(unsealableAt, k)
 			viol(class, "the core/namespace cannot be unsealed by the pre-operation unseal material nor by what the completed operation returned: %v", errsAll)
 			continue
 		}
@@ -1282,9 +1306,10 @@ func c10CrashCase(t *testing.T, r *kit.Result, seed int64, ci int, cs c10Case, p
 			continue
 		}
 		r.Count("prefixes_unsealed_and_verified", 1)
-		if replaced && newOK && !oldOK && k <= last {
+		if replaced && newOK && !oldOK && k <= last && !cs.verify {
 			// the new shares are handed to the operator only when the operation returns
 			r.Count("observation_prefixes_opening_only_with_not_yet_returned_shares", 1)
+			onlyNewAt = append(onlyNewAt, k)
 		}
 		if k == 0 && !oldOK {
 			viol("C10-crash-unsealable", "before the first write the pre-operation unseal material no longer works: %v", errsAll)
